@@ -68,16 +68,16 @@ def run(ctx):
                 v["class"] = "beyond_funded"
             ctx.report(v, {"driver": driver, "events": ev[lo:i + 1]})
 
-    for cfg in (["MC_Market_lp", "MC_Market_fix"] if q else ["MC_Market_lp_thorough", "MC_Market_fix_thorough"]):
+    for cfg in (["MC_Market_lp", "MC_Market_fix"] if q else ["MC_Market_lp_thorough", "MC_Market_fixlp_thorough"]):
         rows, cfgs = _m1.explore(ctx, cfg, {"deposit", "withdraw"}, timeout=900 if q else 2400)
         total_rows += len(rows)
         for k, part in enumerate(_m1.batches(rows, 40000)):
             judge(_m1.replay(ctx, part, cfgs, "%s-%d" % (cfg, k)), "h-model c04 replay (%s)" % cfg)
     if not q:
         _m1.simulate(ctx, "MC_Market_sim", 300)
-    judge(_m1.random_trace(ctx, "random", 1500 if q else 20000), "h-model c04 random")
+    judge(_m1.random_trace(ctx, "random", 1500 if q else 8000), "h-model c04 random")
     if not q:
-        judge(_m1.random_trace(ctx, "random-d2", 6000, dec=2, seed_off=1), "h-model c04 random --dec 2", cfg="Trace_Market_d2")
+        judge(_m1.random_trace(ctx, "random-d2", 3000, dec=2, seed_off=1), "h-model c04 random --dec 2", cfg="Trace_Market_d2")
     _m1.need(counts, ["round_trip", "deposit_first", "deposit_later", "deposit_with_positions", "deposit_positive_impact",
                       "deposit_negative_impact", "deposit_both_sides", "withdraw_ok", "withdraw_with_positions"], "C06")
     ctx.distinct += len(keys)
